@@ -625,6 +625,242 @@ def _alive_shard(arg):
     return res
 
 
+# ------------------------------------------------ decoding on other threads ----
+THREAD_FORMS = ("thread", "pool", "pool-map", "asyncio-executor", "two-threads")
+THREAD_SLICES = 8
+
+
+def _fp_list(inputs):
+    command, frame = _load()
+    out = []
+    for bits, v, dt, mc, um in inputs:
+        try:
+            if (v + dt) % 2:
+                c = command.Command.from_frame(frame.ForwardFrame(bits, v), devicetype=dt,
+                                               dev_inst_map=get_map(mc) if um else None)
+            else:
+                c = command.from_frame(frame.ForwardFrame(bits, v), devicetype=dt, dev_inst_map=get_map(mc) if um else None)
+            out.append(fp(c))
+        except Exception as e:  # noqa
+            out.append("<decode raised %s@%s>" % (type(e).__name__, library_frame(e.__traceback__)))
+    return out
+
+
+def run_threads(case):
+    """A bus watcher decodes on a worker thread / in a pool / in loop.run_in_executor: a frame decodes there to what
+    it decodes to on the main thread (expectation: the main-thread result, which the rest of this check judges)."""
+    import threading
+    import concurrent.futures
+    out = []
+    form, k = case["form"], case["slice"]
+    inputs = probe_inputs()[k::THREAD_SLICES]
+    for t in inputs:                      # the maps are built on the main thread, as an application would
+        if t[4]:
+            get_map(t[3])
+    if form == "asyncio-executor" or form == "pool-map":
+        inputs = inputs[:250]
+    main = _fp_list(inputs)
+    if form == "thread":
+        box = []
+        th = threading.Thread(target=lambda: box.append(_fp_list(inputs)))
+        th.start()
+        th.join(120)
+        got = box[0] if box else None
+    elif form == "two-threads":
+        boxes = [[], []]
+        ths = [threading.Thread(target=lambda b=b: b.append(_fp_list(inputs))) for b in boxes]
+        for th in ths:
+            th.start()
+        for th in ths:
+            th.join(120)
+        got = boxes[0][0] if boxes[0] else None
+        if boxes[1] and got is not None and boxes[1][0] != got:
+            i = next(i for i in range(len(got)) if got[i] != boxes[1][0][i])
+            out.append(("C01:two-threads-decode-differently", "%r: %r on one thread, %r on another running at the same time"
+                        % (inputs[i], got[i], boxes[1][0][i])))
+    elif form == "pool":
+        with concurrent.futures.ThreadPoolExecutor(max_workers=3) as ex:
+            got = ex.submit(_fp_list, inputs).result(120)
+    elif form == "pool-map":
+        with concurrent.futures.ThreadPoolExecutor(max_workers=4) as ex:
+            got = [r[0] for r in ex.map(lambda t: _fp_list([t]), inputs)]
+    elif form == "asyncio-executor":
+        import asyncio
+
+        async def go():
+            loop = asyncio.get_running_loop()
+            return await loop.run_in_executor(None, _fp_list, inputs)
+        got = asyncio.run(go())
+    else:
+        raise ValueError(form)
+    if got is None:
+        out.append(("C01:decode-on-other-thread-did-not-finish", "form %s slice %d" % (form, k)))
+        return out
+    for t, a, b in zip(inputs, main, got):
+        if a != b:
+            sig = "C01:decode-differs-on-other-thread"
+            if b.startswith("<decode raised") and not a.startswith("<decode raised"):
+                sig = "C01:decode-raised-on-other-thread:" + b[15:-1]
+            out.append((sig, "from_frame%r gives %r on the main thread and %r on a %s" % (t, a, b, form)))
+            break
+    return out
+
+
+def _threads_shard(arg):
+    res = Result()
+    n = 0
+    for form, k in arg:
+        case = {"kind": "threads", "form": form, "slice": k}
+        for sig, msg in run_threads(case):
+            res.violation(sig, case, msg)
+        m = len(probe_inputs()[k::THREAD_SLICES])
+        n += min(m, 250) if form in ("asyncio-executor", "pool-map") else m
+        res.label("other-thread:" + form, 1)
+    res.count(n)
+    res.nontrivial(n=n)
+    res.sample({"kind": "threads", "form": arg[0][0], "slice": arg[0][1]}, cls="decode on another thread")
+    return res
+
+
+# ------------------------------------------------ a decode entered while another is in progress ----
+def _ev(scheme, a, b, data):
+    """24-bit event frame value (part 103 table 3)."""
+    if scheme == "device":
+        return (a & 63) << 17 | (b & 31) << 10 | data
+    if scheme == "device_instance":
+        return (a & 63) << 17 | 0x8000 | (b & 31) << 10 | data
+    if scheme == "device_group":
+        return 0x800000 | (a & 31) << 17 | (b & 31) << 10 | data
+    if scheme == "instance":
+        return 0x800000 | (a & 31) << 17 | 0x8000 | (b & 31) << 10 | data
+    return 0xC00000 | (a & 31) << 17 | (b & 31) << 10 | data
+
+
+REENTRY_SCHEMES = ("device", "device_instance", "device_group", "instance", "instance_group")
+REENTRY_FORMS = ("nested", "nested-command-class", "nested-twice", "second-thread")
+
+
+def reentry_cases(seed, n):
+    x = (seed * 2654435761 + 0x9E3779B9) & 0x7FFFFFFF
+    cases = []
+    k = 0
+    while len(cases) < n:
+        x = (x * 1103515245 + 12345) & 0x7FFFFFFF
+        r = x >> 3
+        a, i, data = r & 63, (r >> 6) & 31, (r >> 11) & 0x3FF
+        x = (x * 1103515245 + 12345) & 0x7FFFFFFF
+        r = x >> 3
+        a2, i2, data2 = r & 63, (r >> 6) & 31, (r >> 11) & 0x3FF
+        outer = _ev("device_instance", a, i, data)
+        inner = _ev(REENTRY_SCHEMES[k % 5], a2, i2, data2)
+        if k % 11 == 10:
+            inner = 0xFE0000 | (r & 0xFFFF) & 0xFEFFFF | 0x010000     # a device command, not an event
+        cases.append({"kind": "reentry", "form": REENTRY_FORMS[(k // 5) % 4], "outer": outer, "inner": inner,
+                      "outer_type": [1, 3, 4, 2, 0, 31, None][k % 7], "inner_type": [3, 1, None, 4, 2][(k // 7) % 5]})
+        k += 1
+    return cases
+
+
+def run_reentry(case):
+    """The instance map is the application's object: its get_type() may look things up slowly while another thread
+    decodes, or may itself decode a frame (a cache fed from a bus log, retry_decode of parked events).  Each frame
+    decodes to what it decodes to alone (expectation: the decode of the same frame with a plain mapper holding the
+    same entries, nothing else going on)."""
+    import threading
+    command, frame = _load()
+    from dali.device.helpers import DeviceInstanceTypeMapper
+    out = []
+    form = case["form"]
+    vo, vi = case["outer"], case["inner"]
+    to, ti = case["outer_type"], case["inner_type"]
+    alone_o = _fp_list([(24, vo, 0, to, True)])[0]
+    alone_i = _fp_list([(24, vi, 0, ti, True)])[0]
+    inner_results = []
+    state = {"depth": 0}
+    inside, go = threading.Event(), threading.Event()
+
+    class Mapper(DeviceInstanceTypeMapper):
+        def get_type(self, *args, **kwargs):
+            if state["depth"] < (2 if form == "nested-twice" else 1) and form != "second-thread":
+                state["depth"] += 1
+                try:
+                    fi = frame.ForwardFrame(24, vi)
+                    if form == "nested-command-class":
+                        inner_results.append(command.Command.from_frame(fi, dev_inst_map=get_map(ti)))
+                    elif form == "nested-twice":
+                        inner_results.append(command.from_frame(fi, dev_inst_map=self if ti == to else get_map(ti)))
+                    else:
+                        inner_results.append(command.from_frame(fi, dev_inst_map=get_map(ti)))
+                finally:
+                    state["depth"] -= 1
+            elif form == "second-thread" and threading.current_thread() is state.get("first") \
+                    and not state.get("waited"):
+                state["waited"] = True
+                inside.set()
+                go.wait(20)
+            return super().get_type(*args, **kwargs)
+
+    m = Mapper(dict(get_map(to).mapping))       # documented: preloaded mappings
+    get_map(ti)
+    try:
+        if form == "second-thread":
+            box = []
+
+            def first():
+                try:
+                    box.append(command.from_frame(frame.ForwardFrame(24, vo), dev_inst_map=m))
+                except Exception as e:  # noqa
+                    box.append(e)
+                finally:
+                    inside.set()
+            th = threading.Thread(target=first)
+            state["first"] = th
+            th.start()
+            inside.wait(20)
+            try:
+                inner_results.append(command.from_frame(frame.ForwardFrame(24, vi), dev_inst_map=get_map(ti)))
+            finally:
+                go.set()
+                th.join(30)
+            if not box:
+                return [("C01:decode-on-other-thread-did-not-finish", "reentry %r" % (case,))]
+            if isinstance(box[0], Exception):
+                raise box[0]
+            co = box[0]
+        else:
+            co = command.from_frame(frame.ForwardFrame(24, vo), dev_inst_map=m)
+    except Exception as e:  # noqa
+        return [("C01:decode-raised-when-re-entered:%s@%s" % (type(e).__name__, library_frame(e.__traceback__)),
+                 "%r raised %r" % (case, e))]
+    if not inner_results:
+        return [("HARNESS:reentry-inner-not-run", "%r" % (case,))]
+    got_o = fp(co)
+    if got_o != alone_o:
+        out.append(("C01:pending-decode-changed-by-a-decode-started-meanwhile",
+                    "%#x decodes alone to %r; with %#x decoded while its map lookup was in progress (%s) it gives %r"
+                    % (vo, alone_o, vi, form, got_o)))
+    for ci in inner_results:
+        if fp(ci) != alone_i:
+            out.append(("C01:decode-started-during-another-differs",
+                        "%#x decodes alone to %r; decoded while %#x was in its map lookup (%s) it gives %r"
+                        % (vi, alone_i, vo, form, fp(ci))))
+    return out
+
+
+def _reentry_shard(arg):
+    seed, n = arg
+    res = Result()
+    cases = reentry_cases(seed, n)
+    for case in cases:
+        for sig, msg in run_reentry(case):
+            res.violation(sig, case, msg)
+        res.label("reentry:" + case["form"], 1)
+    res.count(len(cases))
+    res.nontrivial(n=len(cases))
+    res.sample(cases[0], cls="decode re-entered")
+    return res
+
+
 # ------------------------------------------------ Hypothesis histories ----
 def _own_frames():
     from dali import frame as fr
@@ -843,6 +1079,10 @@ def run_case(case):
         return run_context(case)
     if kind == "alive":
         return run_alive(case)
+    if kind == "threads":
+        return run_threads(case)
+    if kind == "reentry":
+        return run_reentry(case)
     if kind == "import-history":
         res = _import_shard(case["name"])
         return [(s, v["msg"]) for s, v in res.violations.items()]
@@ -910,6 +1150,10 @@ def run(ctx):
     ctx.pmap(_enum_shard, shards)
     ctx.pmap(_import_shard, sorted(IMPORT_HISTORIES))
     ctx.pmap(_alive_shard, [(k, 16) for k in range(16)])
+    combos = [(f, (k + s) % THREAD_SLICES) for k, f in enumerate(THREAD_FORMS)] + \
+             [(f, (k + s + 3) % THREAD_SLICES) for k, f in enumerate(THREAD_FORMS)]
+    ctx.pmap(_threads_shard, [combos[k::5] for k in range(5)])
+    ctx.pmap(_reentry_shard, [(s * 100 + k, 140 if q else 1200) for k in range(8)])
     cops = context_ops()
     per = (len(cops) + 15) // 16
     ctx.pmap(_ctx_shard, [(cops[k:k + per], q, s) for k in range(0, len(cops), per)])
